@@ -28,12 +28,12 @@ CLAIMED["C01"] = dict(
     note=COMMON_NOTE + " Domain D as in the property (burst,count,period >= 1, E >= 1 ns, burst*E <= 2^60 ns, time 1970..2100). E is the value the code computes (parameter `ei`); that it is floor(period/count) is C18.")
 CLAIMED["C02"] = dict(
     text="Proof (Lean 4): at every step of every history (any quantities incl. 0 and > burst), decision and remaining tokens of a fixed-limits key equal those of the ideal token bucket started full (C02_refines_bucket), on every store; corollaries read off the bucket: fresh / rested key admits up to burst, no starvation (finite wait <= B*E), denial only when the bucket is short. "
-         "The O leg compares the real code with an independent exact-integer bucket step by step.",
+         "The O leg compares the real code with an independent exact-integer bucket step by step; a population leg keeps up to 1.1 million keys live at once per store (a never-seen key must still be admitted) and a wire leg checks that the transports hand requests to the limiter unchanged.",
     design="§5 C02", technique="Lean 4 refinement proof (simulation relation GCRA cell <-> token bucket, induction over histories); differential correspondence",
     note=COMMON_NOTE + " Domain D as in C01.")
 CLAIMED["C05"] = dict(
     text="Proof (Lean 4): for every multi-key history with non-decreasing timestamps (other keys' requests arbitrary, valid or not), every store and every key k, the responses for k equal those of k's own sub-history run alone on any store (C05_key_isolation), via projection of the abstract map onto k's cell. Keys are opaque strings compared for equality. "
-         "The M/O legs run interleaved vs solo histories on the real stores with thousands of keys (empty, NUL, Unicode, 64 KiB, one-byte differences) so growth, rehash and every cleanup trigger fire.",
+         "The M/O legs run interleaved vs solo histories on the real stores with thousands of keys (empty, NUL, Unicode, 64 KiB, one-byte differences, near-identical twins) so growth, rehash and every cleanup trigger fire - in two builds of the library (with and without its default ahash feature), with the store moved to another address while it holds entries; a wire leg sends near-identical and long shared-prefix key families over HTTP, gRPC and RESP.",
     design="§5 C05", technique="Lean 4 proof: projection/simulation onto a single-key cell, induction over histories; solo-vs-interleaved differential runs",
     note=COMMON_NOTE + " Global monotonicity of timestamps is a hypothesis (without it a sweep triggered by another key is observable: that is C17's subject).")
 
@@ -41,7 +41,7 @@ CLAIMED["C03"] = dict(
     text="Proof (Lean 4), for every response produced from every reachable state of a fixed-limits key in D (reachability: C03_reachable; a probe appended to any multi-key history on any store is one more step on the key's cell: C03_probe_is_cell_step): "
          "limit = max_burst, 0 <= remaining <= limit, retry_after = 0 iff admitted (C03_limit_remaining_retry); remaining exact - at the same instant q tokens are admitted iff q <= remaining (C03_remaining_exact, _admitted_next_denied); "
          "a denied request of quantity <= burst is admitted exactly retry_after later and denied 1 ns earlier, also across expiry (C03_retry_honoured); reset_after >= time to regain the full burst (C03_reset_ge_refill); every write carries ttl = reset_after (C03_reset_eq_lifetime); after reset_after the key answers as never seen (C03_reset_then_fresh). "
-         "O leg: the same probes executed on the real code by re-executing the prefix on a fresh limiter.",
+         "O leg: the same probes executed on the real code by re-executing the prefix on a fresh limiter; at population checkpoints up to 1.1 million live keys the key admitted last must be exhausted (its state was stored).",
     design="§5 C03", technique="Lean 4 proof (per-step facts over the bucket simulation invariant) + differential correspondence + re-execution probes",
     note=COMMON_NOTE + " Domain D; probes at now + retry_after must stay <= 2100-01-01.")
 CLAIMED["C04"] = dict(
